@@ -275,11 +275,11 @@ PROPS["C20"] = dict(
                 "BOUNDED: memos (ASCII, unicode, long) x gram sizes x base64/binary headers x plain/sure/auth codes x delivery orders (in order, reversed, shuffles, duplicates, "
                 "interleaved servicing) and a missing-gram case.")
 PROPS["C21"] = dict(
-    contracts=["contracts.memo_tx"], harness="harness.memo_native:C21", level="other",
+    contracts=["contracts.memo_tx", "contracts.memo_tx2"], harness="harness.memo_native:C21", level="other",
     trusted_base=["EXT transport send(gram, dst): returns 0..len(gram) having put gram[:cnt] on the wire, or raises OSError(e)"],
     assumptions=["single destination per contract run; queue length 0..2 (symbolic contents, counts, errnos): bounded in queue length only",
                  "'eventually sent' is liveness: its safety core is proved (nothing lost/duplicated/reordered per call; pending work is always offered to the transport)"],
-    explanation="Memoer._serviceOnceTxGrams, serviceTxGramsOnce, serviceTxGrams interpreted from /repo/src with a ghost account of bytes accepted by the transport and grams dropped: "
+    explanation="PROVED per step for a queue of ANY length and ANY destinations (contracts/memo_tx2.py): exactly the current piece (pending remainder, else the queue head) is offered whole to its own destination, the unsent tail stays pending for that destination, the queue loses exactly its head iff the piece came from it, a piece is dropped only for an unreachable-destination errno, the result tells whether nothing is pending. Whole-call accounting below is bounded in queue length. Memoer._serviceOnceTxGrams, serviceTxGramsOnce, serviceTxGrams interpreted from /repo/src with a ghost account of bytes accepted by the transport and grams dropped: "
                 "account ++ pending_after == pending_before on every normal return, a gram is dropped only for an unreachable-destination errno, pending remainder or gram on an open "
                 "transport is offered to send() in full and oldest first. " + MEMO_NOTE)
 PROPS["C22"] = dict(
